@@ -1,8 +1,8 @@
 package main
 
 import (
-	"strings"
 	"fmt"
+	"strings"
 
 	tally "github.com/uber-go/tally/v4"
 	rt "github.com/uber-go/tally/v4/verifrt"
